@@ -308,7 +308,12 @@ def library_oracle_(ctx, floor0):
     corners = [("gabor", "mel", 8000, 0.0, 4000.0, 6), ("gammatone", "mel", 8000, 0.0, 4000.0, 6),
                ("gabor", "mel", 8000, 500.0, 4000.0, 10), ("gabor", "bark", 4000, 500.0, 2000.0, 6),
                ("gammatone", "mel", 4000, 1000.0, 2000.0, 6), ("gammatone", "bark", 8000, 1000.0, 4000.0, 10),
-               ("gabor", "mel", 16000, 1000.0, 8000.0, 20), ("gammatone", "bark", 4000, 500.0, 2000.0, 20)]
+               ("gabor", "mel", 16000, 1000.0, 8000.0, 20), ("gammatone", "bark", 4000, 500.0, 2000.0, 20),
+               # a linear scale with slope != 1 and an offset (both directions of the scale are used to lay the bank
+               # out), and triangular banks whose high_hz lies within the accepted 1 Hz above the Nyquist frequency
+               ("tri", dict(name="linear", low_hz=40.0, slope_hz=1.25), 1000, 0.0, 300.0, 4),
+               ("tri", "mel", 1000, 20.0, 500.25, 4), ("tri", "bark", 8000, 100.0, 4000.5, 6),
+               ("tri_analytic", dict(name="linear", low_hz=10.0, slope_hz=0.5), 4000, 0.0, 1500.0, 5)]
     for it in range(n):
         if ctx.out_of_time():
             break
@@ -316,7 +321,8 @@ def library_oracle_(ctx, floor0):
         config.LOG_FLOOR_VALUE = floor0
         rate = r.choice([4000, 8000, 11025])
         kind = r.choice(["gabor", "tri", "fbank", "gammatone", "tri_analytic"])
-        scale = r.choice(["mel", "bark", dict(name="linear", low_hz=0.0), dict(name="octave", low_hz=30.0)])
+        scale = r.choice(["mel", "bark", dict(name="linear", low_hz=0.0), dict(name="octave", low_hz=30.0),
+                          dict(name="linear", low_hz=40.0, slope_hz=r.choice([1.25, 0.5, 2.0]))])
         nf = r.choice([3, 6, 10])
         lo = r.choice([0.0, 20.0, 200.0, 500.0, 1000.0])
         hi = r.choice([rate / 2, rate / 2 - 100.0, rate / 4])
